@@ -29,6 +29,15 @@ prop("C20", "E-SEQ + finite enumeration",
      "All 18x18 SchemaType pairs (reflexive, symmetric, documented families), IsValidType on every documented name and every edit-distance-1 variant, token-type agreement of schema and JSON types, and GuessSchemaType on every token string of <=6 (thorough 7) tokens over a 15-token literal alphabet compared with the schema scanner's own classification (24 repetitions each).",
      "Vocabulary = constants of type.go; map-order independence is decided structurally by the instrumented build (C09).")
 
+prop("C02", "E-SEQ + E-STATE + E-GEN",
+     "bounded exhaustive inputs + explicit-state search of the real scanners + exhaustive small reference graphs, executed in crash-contained worker processes",
+     "Per entry point (schema, enum rule, regex, JSON document, number): all token strings up to N tokens, every reachable abstract state of the three scanners and the number recogniser x every byte class x end-of-input (both scanner modes), every prefix of every valid text of the repository's test corpus, all projects of <=3 self/mutually referencing types from 13 reference forms x every registered subset, and an exponent grid; each case runs the whole public call bundle under recover in a worker with a stack limit, an address-space limit and a watchdog, so panics, stack overflows, aborts and hangs are all observed and attributed to the exact input.",
+     "Bounds: schema 4 (thorough 5) tokens over 31, open lexemes <=5 (7); 'bounded time' = 120 s watchdog per case; deeper nesting than the bound is not covered.")
+prop("C16", "E-SEQ + E-STATE + E-GEN",
+     "same exhaustive spaces as C02 plus single-token mutations of valid corpus texts under LF/CRLF/CR; every returned error judged by a diagnostic well-formedness oracle with an independent line/column reference",
+     "Every error returned by any call of the bundle on any enumerated input must carry a numeric code, must not be a Go runtime error, internal-failure code or struct/address dump, must render without panicking, and when positioned must have its index inside the file it names, line/column equal to an independent reference and must quote that line.",
+     "Line/column compared only for single-convention texts and indices not on a terminator byte; only code 1 and wrapped runtime errors count as 'internal failure'.")
+
 ORDER = ["C%02d" % i for i in range(1, 21)]
 
 def main():
